@@ -174,6 +174,8 @@ class ExecMixin(object):
         if isinstance(t, ast.Name):
             if not self.in_contract and t.id in self.ghost_names:
                 raise ContractError("program assigns ghost name %s" % t.id)
+            if t.id in self.unit.var_kinds and self.unit.var_kinds[t.id] == "py" and not isinstance(v, VPy):
+                v = VPy(z3.simplify(self.to_py(v)))
             st.env[t.id] = v
             return
         if isinstance(t, (ast.Tuple, ast.List)):
@@ -481,6 +483,11 @@ class ExecMixin(object):
                 z3.Select(d.keys, z3.Select(karr, i)), z3.Length(z3.Select(karr, i)) >= 1), "dict-keys"))
             self.assumptions.add("iteration over a dict: an arbitrary list of its keys; keys are non-empty strings")
             elem = lambda k, karr=karr: VStr(z3.Select(karr, k))
+        elif isinstance(it, VRef) and isinstance(st.heap[it.oid], HRecList):
+            rl = st.heap[it.oid]
+            n = rl.n
+            elem = lambda k, rl=rl: None
+            self._reclist_iter = rl
         elif isinstance(it, VRef):
             cell = self.as_hlist(st.heap[it.oid])
             n = cell.n
@@ -540,6 +547,8 @@ class ExecMixin(object):
                     st.heap[base.oid] = HObj(cell.cls, f)
 
     def fresh_like(self, v, st, nm):
+        if nm in self.unit.var_kinds:
+            return fresh(self.unit.var_kinds[nm], nm)
         if isinstance(v, (VInt, VStr, VBool, VPy)):
             return fresh(v.kind, nm)
         if isinstance(v, VNone):
@@ -672,7 +681,10 @@ class ExecMixin(object):
                         d.env[nm] = v
                 try:
                     if is_for:
-                        self.assign(stmt.target, elem(k), d, stmt)
+                        ev_ = elem(k)
+                        if ev_ is None:
+                            ev_ = self._reclist_iter.elem(k, d)
+                        self.assign(stmt.target, ev_, d, stmt)
                     outs = self.run_block_tolerant(stmt.body, d)
                 except (OutOfSubset, ContractError, PathEnd):
                     outs = []
@@ -799,7 +811,10 @@ class ExecMixin(object):
         b.trail.append(tag + "b")
         if is_for:
             b.assume(k < n)
-            self.assign(stmt.target, elem(k), b, stmt)
+            ev_ = elem(k)
+            if ev_ is None:
+                ev_ = self._reclist_iter.elem(k, b)
+            self.assign(stmt.target, ev_, b, stmt)
             if isinstance(seqval, VStr):
                 # valid string fact: s[:k+1] == s[:k] + s[k]   (hint; theorem of the theory)
                 b.assume(z3.SubString(seqval.e, 0, k + 1) == z3.Concat(z3.SubString(seqval.e, 0, k), z3.SubString(seqval.e, k, 1)))
